@@ -34,6 +34,7 @@ theorem verdict : (classify Generated.factsC08).Sound (Holds (cfgOf Generated.fa
 #print axioms Hv.Query.leg_agree_same_kind
 #print axioms routes_agree_same_kind
 #print axioms current_same_kind
+#print axioms Hv.Query.residual_carries_opaque
 #print axioms holdsS_of
 #print axioms refutes_of_witnessS
 #print axioms witness_bucket_misses_update
